@@ -471,7 +471,7 @@ func (ex *Exec) checkPost(fr *Frame, s *State, results []Value, retIdx int) {
 	if ex.contract == nil {
 		return
 	}
-	env := &SpecEnv{ex: ex, cur: s, old: fr.entry, vars: map[string]Value{}, results: results, fn: fr.fn}
+	env := &SpecEnv{ex: ex, cur: s, old: fr.entry, vars: map[string]Value{}, results: results, fn: fr.fn, fr: fr}
 	// name suffix: which return statement (ordinal in source order) and the declared path keys
 	suffix := ""
 	if len(ex.contract.PathKeys) > 0 {
